@@ -735,7 +735,7 @@ def exercise_can(rep, rng, d, g, build, jobs, model):
 
 def exhaustive_types(rep):
     """integer-model ties that use float log2 in the implementation: exhaustive on 1..64 and around powers of two"""
-    ms = sorted(set([0, 1, 2, 3] + [x for k in range(1, 33) for x in ((1 << k) - 1, 1 << k, (1 << k) + 1)]))
+    ms = sorted(set([0, 1, 2, 3] + [x for k in range(1, 65) for x in ((1 << k) - 1, 1 << k, (1 << k) + 1) if x < (1 << 64)]))
     r = run_cases("harness.cpp", "w_type_names", [{"enum_max": ms}], timeout_s=60)[0]
     if "ok" not in r:
         rep.violation({"kind": "harness", "observed": r}, no_input=True)
